@@ -58,6 +58,11 @@ def known_abort_synth(note, evs, how):
     elif ev.get("ev") == "deepnest":
         ev.setdefault("check", {"kind": "abort"})
         ev.setdefault("parse", {"kind": "abort", "class": "-"})
+    elif ev.get("ev") == "longrun":
+        ev["check"] = {"kind": ev.get("check", {}).get("kind", "abort")}
+        ev.setdefault("parse", {"kind": "abort", "class": "-"})
+        ev.setdefault("ref_check", {"kind": "-"})
+        ev.setdefault("ref_parse", {"kind": "-", "class": "-"})
     else:
         ev.update({"write": "ok" if phase == "read" else "abort", "encoded": [], "runs": [{"how": "abort", "segs": [], "upto": 0, "got": [], "end": "panic"}]})
     ev["abort"] = how
